@@ -912,7 +912,7 @@ async def run_fileobj(app, bs, mxr, maxr, cap, F0, ops):
     return out, bytes(h.F)
 
 
-def fileobj_oracle(app, F0, ops, got, Fend):
+def fileobj_oracle(app, F0, ops, got, Fend, exact=False):
     """Walk the operations with a reference file and position. A read may return a non-empty prefix of
     what is available (one capped request). After a read with an explicit offset that returned nothing
     both "position unchanged" and "position = that offset" are accepted (P is the set of positions still
@@ -935,6 +935,11 @@ def fileobj_oracle(app, F0, ops, got, Fend):
                 want = bytes(F[o:o + size])
                 if g[0] != 'bytes':
                     why = f'{op!r} raised'
+                elif exact and g[1] != want:
+                    # the server answers every request within its advertised max_read_len in full and block_size is
+                    # not 0: whatever path read() takes, it must deliver the whole slice
+                    why = (f'{op!r} at position {o} returned {len(g[1])} bytes, the file has {len(want)} there (the server '
+                           f'honours its advertised read limit; nothing failed)')
                 elif not (want.startswith(g[1]) and (g[1] or not want)):
                     why = f'{op!r} at position {o} returned {g[1][:40]!r} ({len(g[1])} bytes), the file has {want[:40]!r} ({len(want)} bytes) there'
                 elif g[1]:
@@ -1010,6 +1015,13 @@ def stage_fileobj(ctx, n):
         bs = rng.choice([0, 1, 2, 3, 4, 8, 16])
         maxr = rng.choice([2, 4, 8, 64])
         cap = rng.choice([1, 2, 3, 64])
+        if k % 2 == 0:
+            # a server that caps replies exactly at the limit it advertises (as OpenSSH does); block_size below,
+            # equal to and above that limit
+            maxr = rng.choice([2, 4, 8])
+            cap = maxr
+            bs = rng.choice([max(1, maxr - 1), maxr, maxr + 1, 2 * maxr, 16, 40])
+        exact = bs > 0 and cap >= maxr
         E = rng.randint(0, 40)
         F0 = gen_bytes(rng, E)
         ops = gen_fops(rng, E)
@@ -1018,9 +1030,12 @@ def stage_fileobj(ctx, n):
         ctx.note_case(('fileobj', app, bs, maxr, cap, E, tuple((o[0],) + tuple(len(x) if isinstance(x, bytes) else x for x in o[1:])
                                                             for o in ops)), nontrivial=len(ops) >= 3)
         ctx.count('fileobj.' + ('append' if app else 'plain'))
-        bad = fileobj_oracle(app, F0, ops, got, Fend)
+        bad = fileobj_oracle(app, F0, ops, got, Fend, exact)
+        if exact:
+            ctx.count('fileobj.limit_honouring_server.bs_%s_limit' % ('below' if bs < maxr else 'equal' if bs == maxr else 'above'))
         if bad:
-            ctx.failing_input(f'SFTPClientFile(appending={app}, block_size={bs}) on a {E}-byte file, operations {ops!r}: {bad}',
+            ctx.failing_input(f'SFTPClientFile(appending={app}, block_size={bs}, server max_read_len={maxr}, replies capped at '
+                              f'{cap}) on a {E}-byte file, operations {ops!r}: {bad}',
                               {'kind': 'fileobj', 'app': app, 'bs': bs, 'maxr': maxr, 'cap': cap, 'F0': F0.hex(),
                                'ops': [[o[0]] + [x.hex() if isinstance(x, bytes) else x for x in o[1:]] for o in ops]})
         cases.append('(%s, %d, %d, %d, %d, %s, %s, %s, %s)' % (cbool(app), bs, bs, maxr, cap, zl(F0), clist(ops, coq_fop),
@@ -1060,6 +1075,8 @@ def make_server_class(state):
 
         def read(self, file_obj, offset, size):
             data = super().read(file_obj, offset, size)
+            if state.get('cap_read'):
+                data = data[:state['cap_read']]      # enforce the advertised max_read_len by a short reply
             cut = state.get('cut')
             if cut is not None:
                 data = data[:max(0, cut - offset)]
@@ -1189,7 +1206,7 @@ async def e2e(ctx, tmp, replay=None):
 
         def reset(**kw):
             state.update({'cut': None, 'fail_at': None, 'wfail_at': None, 'short': False, 'async': False, 'failed': False,
-                          'close_fail': None, 'close_failed': 0})
+                          'close_fail': None, 'close_failed': 0, 'cap_read': None})
             state.update(kw)
 
         async def one_transfer(spec):
@@ -1424,16 +1441,27 @@ async def e2e(ctx, tmp, replay=None):
             serial += 1
             name = 'o%d' % serial
             E = rng.choice([0, 1, 100, 1000, 5000, 20000])
+            if k % 2 == 0:
+                E = rng.choice([2500, 5000, 20000])
             F0 = gen_bytes(rng, E)
             with open(os.path.join(srv, name), 'wb') as f:
                 f.write(F0)
             app = rng.random() < 0.3
             bs = rng.choice([0, 64, 256, 1000, -1])
+            lim = getattr(sftp, 'limits', None)
+            capmode = k % 2 == 0 and lim is not None and hasattr(lim, 'max_read_len')
+            if capmode:
+                # the server advertises max_read_len = 1000 and answers with at most that; block_size below / at / above
+                old_lim = lim.max_read_len
+                lim.max_read_len = 1000
+                reset(short=False, salt=7, cap_read=1000)
+                bs = [500, 1000, 4000, 1001][(k // 2) % 4]
+                stats['limit_honouring_fileobj'] = stats.get('limit_honouring_fileobj', 0) + 1
             ops = []
             for _ in range(rng.randint(2, 8)):
                 r = rng.random()
                 if r < 0.45:
-                    ops.append(('read', rng.choice([-1, 0, 1, 63, 64, 65, 300, 5000]), None if rng.random() < 0.6 else rng.randint(0, E + 10)))
+                    ops.append(('read', rng.choice([-1, 999, 1000, 1001, 3000, 4000, 4001] if capmode else [-1, 0, 1, 63, 64, 65, 300, 5000]), None if rng.random() < 0.6 else rng.randint(0, E + 10)))
                 elif r < 0.7:
                     ops.append(('write', gen_bytes(rng, rng.choice([0, 1, 64, 65, 700, 3000])), None if rng.random() < 0.6 else rng.randint(0, E + 100)))
                 elif r < 0.9:
@@ -1459,9 +1487,14 @@ async def e2e(ctx, tmp, replay=None):
             os.remove(os.path.join(srv, name))
             ctx.note_case(('e2e_fileobj', app, bs, E, len(ops)), nontrivial=True)
             ctx.count('e2e.fileobj')
-            bad = fileobj_oracle(app, F0, ops, got, Fend)
+            bad = fileobj_oracle(app, F0, ops, got, Fend, capmode)
+            if capmode:
+                lim.max_read_len = old_lim
+                reset(short=True, salt=7)
             if bad:
-                ctx.failing_input(f'remote file object (append={app}, block_size={bs}) on a {E}-byte file, operations '
+                ctx.failing_input(f'remote file object (append={app}, block_size={bs}'
+                                  + (', server max_read_len 1000 and replies capped at 1000' if capmode else '')
+                                  + f') on a {E}-byte file, operations '
                                   f'{[(o[0],) + tuple(len(x) if isinstance(x, bytes) else x for x in o[1:]) for o in ops]!r}: {bad}',
                                   {'kind': 'e2e_fileobj', 'app': app, 'bs': bs, 'E': E,
                                    'ops': [[o[0]] + [x.hex() if isinstance(x, bytes) else x for x in o[1:]] for o in ops]})
@@ -1873,7 +1906,7 @@ def replay(rp):
         ops = [tuple([o[0]] + [bytes.fromhex(x) if (o[0] == 'write' and i == 0) else x for i, x in enumerate(o[1:])]) for o in rp['ops']]
         F0 = bytes.fromhex(rp['F0'])
         got, Fend = sshutil.run(run_fileobj(rp['app'], rp['bs'], 2, rp['maxr'], rp['cap'], F0, ops))
-        bad = fileobj_oracle(rp['app'], F0, ops, got, Fend)
+        bad = fileobj_oracle(rp['app'], F0, ops, got, Fend, rp['bs'] > 0 and rp['cap'] >= rp['maxr'])
     elif kind in ('ranges', 'client_ranges'):
         ext = [tuple(e) for e in rp['extents']]
         if kind == 'ranges':
